@@ -175,8 +175,8 @@ class GaussianMerge(Compiler):
         for op in list(self.DAG.nodes):
             successors = list(self.DAG.successors(op))
             predecessors = list(self.DAG.predecessors(op))
-            # If operation is a Gaussian operation
-            if get_op_name(op) in self.gaussian_ops:
+            # If operation is a Gaussian operation (whose parameters are known at compile time)
+            if get_op_name(op) in self.gaussian_ops and not op.op.measurement_deps:
                 merged_gaussian_ops = self.get_valid_gaussian_merge_ops(op)
 
                 # If there are successor operations that are Gaussian and can be merged
@@ -353,6 +353,10 @@ class GaussianMerge(Compiler):
                     if self.valid_prepend_op_addition(op, predecessor, merged_gaussian_ops):
                         merged_gaussian_ops.append(predecessor)
 
+        # operations that depend on a measurement result cannot be evaluated at compile time
+        merged_gaussian_ops = [
+            gate for gate in merged_gaussian_ops if not gate.op.measurement_deps
+        ]
         merged_gaussian_ops = self.remove_invalid_operations(op, merged_gaussian_ops)
         merged_gaussian_ops = self.remove_separated_operations(op, merged_gaussian_ops)
 
